@@ -8,6 +8,7 @@ import GeoVerif.Proofs.OSGBInt
 import GeoVerif.Proofs.OSGBScale
 import GeoVerif.Proofs.GridHelpers
 import GeoVerif.Proofs.GeohashDecode
+import GeoVerif.Proofs.OSGBReverse
 import GeoVerif.Gen.OSGBC
 import GeoVerif.Props.C16
 /-!
@@ -1726,6 +1727,70 @@ theorem osgb_gridReference_eq (x y : F64) (prec : ℤ) (hc : OSGB.checkCoords x 
     · simp [hp, hn, bind, Except.bind, pure, Except.pure]
     · simp [hp, hn, bind, Except.bind, pure, Except.pure]
   · simp [hp, bind, Except.bind, throw, throwThe, MonadExceptOf.throw]
+
+/-- **`ReadGridReference` is exact down to 1 m**: for every accepted string of precision `≤ 5`, the returned easting is
+exactly `10^5·xh + X·10^(5−p)` (south-west corner) resp. `+ 10^(5−p)/2` (centre), `X` the decoded digits; same for northing -/
+theorem osgb_reverse_exact_le5 (s : List ℕ) (d : OSGB.Dec) (h : OSGB.decodeInt s = .ok d) (hp : d.prec ≤ 5) (cp : Bool) :
+    HasVal (OSGB.reverseVal d cp).1 ((100000 * d.xh + digitsVal d.xd * 10 ^ (5 - d.prec) : ℤ) + (if cp then (10:ℚ) ^ (5 - d.prec) / 2 else 0)) ∧
+    HasVal (OSGB.reverseVal d cp).2 ((100000 * d.yh + digitsVal d.yd * 10 ^ (5 - d.prec) : ℤ) + (if cp then (10:ℚ) ^ (5 - d.prec) / 2 else 0)) := by
+  obtain ⟨lx, ly, dx, dy, a, b, c, e⟩ := OSGBReverse.dec_digits s d h
+  exact OSGBReverse.reverseVal_exact d hp lx ly dx dy (by rw [abs_le]; constructor <;> omega) (by rw [abs_le]; constructor <;> omega) cp
+
+/-- **re-encode law through the floating values, down to 1 m**: for every accepted string of precision `≤ 5`,
+`GridReference(ReadGridReference(s, centerp = true), prec)` is the string upper-cased with white space removed — the
+binary64 centre is computed exactly, passes the range check, and its tile index, offset and digits are exact -/
+theorem osgb_reencode_le5 (s : List ℕ) (d : OSGB.Dec) (h : OSGB.decodeInt s = .ok d) (hp : d.prec ≤ 5) :
+    (OSGB.gridReference (OSGB.reverseVal d true).1 (OSGB.reverseVal d true).2 d.prec).map toBytes =
+      .ok ((s.filter (fun c => !OSGB.isSpace c)).map upper) := by
+  obtain ⟨lx, ly, dx, dy, a, b, c, e⟩ := OSGBReverse.dec_digits s d h
+  obtain ⟨vx, vy⟩ := osgb_reverse_exact_le5 s d h hp true
+  simp only [if_true] at vx vy
+  have hDx := OSGBReverse.digitsVal_lt d.xd dx
+  have hDy := OSGBReverse.digitsVal_lt d.yd dy
+  rw [lx] at hDx
+  rw [ly] at hDy
+  have sx := OSGBReverse.scaleCoord_centre d.xh (digitsVal d.xd) d.prec hp (by rw [abs_le]; constructor <;> omega) hDx vx
+  have sy := OSGBReverse.scaleCoord_centre d.yh (digitsVal d.yd) d.prec hp (by rw [abs_le]; constructor <;> omega) hDy vy
+  -- the range check
+  have k5 : d.prec + (5 - d.prec) = 5 := by omega
+  have hpk : (10:ℚ) ^ d.prec * (10:ℚ) ^ (5 - d.prec) = 100000 := by rw [← pow_add, k5]; norm_num
+  have hkpos : (0:ℚ) < (10:ℚ) ^ (5 - d.prec) := by positivity
+  have rng : ∀ (hh : ℤ) (D : ℕ), D < 10 ^ d.prec →
+      (100000:ℚ) * hh ≤ ((100000 * hh + D * 10 ^ (5 - d.prec) : ℤ) : ℚ) + (10:ℚ) ^ (5 - d.prec) / 2 ∧
+      ((100000 * hh + D * 10 ^ (5 - d.prec) : ℤ) : ℚ) + (10:ℚ) ^ (5 - d.prec) / 2 < 100000 * (hh + 1) := by
+    intro hh D hD
+    have hDq : (D:ℚ) + 1 ≤ (10:ℚ) ^ d.prec := by exact_mod_cast hD
+    have hD0 : (0:ℚ) ≤ (D:ℚ) := by positivity
+    have h1 : ((D:ℚ) + 1) * (10:ℚ) ^ (5 - d.prec) ≤ 100000 := by
+      rw [← hpk]; exact mul_le_mul_of_nonneg_right hDq hkpos.le
+    push_cast
+    constructor <;> nlinarith
+  have hc : OSGB.checkCoords (OSGB.reverseVal d true).1 (OSGB.reverseVal d true).2 = .ok () := by
+    rw [osgb_checkCoords_iff]
+    obtain ⟨x1, x2⟩ := rng d.xh _ hDx
+    obtain ⟨y1, y2⟩ := rng d.yh _ hDy
+    have aq : (-10:ℚ) ≤ (d.xh:ℚ) := by exact_mod_cast a
+    have bq : (d.xh:ℚ) + 1 ≤ 15 := by exact_mod_cast (by omega : d.xh + 1 ≤ 15)
+    have cq : (-5:ℚ) ≤ (d.yh:ℚ) := by exact_mod_cast c
+    have eq' : (d.yh:ℚ) + 1 ≤ 20 := by exact_mod_cast (by omega : d.yh + 1 ≤ 20)
+    push_cast at x1 x2 y1 y2
+    refine ⟨Or.inr ⟨vx.1, ?_, ?_⟩, Or.inr ⟨vy.1, ?_, ?_⟩⟩
+    · rw [vx.2]; norm_num [osgb_minx]; linarith
+    · rw [vx.2]; norm_num [osgb_maxx]; linarith
+    · rw [vy.2]; norm_num [osgb_miny]; linarith
+    · rw [vy.2]; norm_num [osgb_maxy]; linarith
+  rw [osgb_gridReference_eq _ _ _ hc]
+  have hpr : (0:ℤ) ≤ (d.prec:ℤ) ∧ (d.prec:ℤ) ≤ 11 := by omega
+  have hnan : ((OSGB.reverseVal d true).1.isNaN || (OSGB.reverseVal d true).2.isNaN) = false := by
+    obtain ⟨s1, m1, e1, r1, _⟩ := vx.fin
+    obtain ⟨s2, m2, e2, r2, _⟩ := vy.fin
+    rw [r1, r2]; rfl
+  simp only [hpr, not_true_eq_false, if_false, hnan, Bool.false_eq_true, Int.toNat_natCast, and_self]
+  rw [sx, sy]
+  have h0 : d.prec - 5 = 0 := by omega
+  rw [encodeInt_eq_cell _ _ _ (by simp [h0]) (by simp [h0])]
+  simp only [cellIndex, h0, pow_zero, Nat.mul_one, Int.toNat_natCast, Int.toNat_zero, Nat.add_zero, Except.map]
+  rw [osgb_reencode s d h]
 
 /-! #### the constants of the OSGB36 projection as written in `OSGB.hpp` (re-extracted on every run: `Gen.OSGBC`) -/
 
